@@ -125,7 +125,8 @@ ProcDefaults ==
      tgt |-> "", unl |-> FALSE, oob |-> FALSE, cyc |-> {},
      t |-> "", df |-> "", dv |-> 0, opi |-> 1, std |-> FALSE, file |-> FALSE,
      val |-> NoVal, kid |-> NoPid, tok |-> 0,
-     decl |-> {}, stamped |-> FALSE]      \* ghost: what the script declared / whether it ran redo-stamp
+     decl |-> {}, stamped |-> FALSE,      \* ghost: what the script declared / whether it ran redo-stamp
+     qout |-> {}]                         \* what a query printed
 
 Alive(p)   == p \in DOMAIN procs
 
@@ -267,7 +268,9 @@ DoAdd(df) ==
 (***************************************************************************)
 (* Commands                                                                *)
 (***************************************************************************)
-TopRec(c) == [ProcDefaults EXCEPT !.kind = "redo", !.pc = "init", !.forced = (c.kind = "redo"), !.keep = c.keep,
+IsQuery(c) == c.kind \in {"ood", "targets", "sources"}
+TopRec(c) == IF IsQuery(c) THEN [ProcDefaults EXCEPT !.kind = "query", !.pc = "init", !.t = c.kind] ELSE
+             [ProcDefaults EXCEPT !.kind = "redo", !.pc = "init", !.forced = (c.kind = "redo"), !.keep = c.keep,
                                   !.targs = NormSeqAt(c.cwd, c.targs), !.tok = 1]
 
 StartBuild(c) ==
@@ -317,7 +320,8 @@ EndPar ==
                              c1 |-> [kind |-> cmd.kind, targs |-> cmd.targs, keep |-> cmd.keep, j |-> cmd.j, cwd |-> cmd.cwd,
                                      rc |-> procs[Top].rc, ran |-> PickRan(1, Top)],
                              c2 |-> [kind |-> cmd.c2.kind, targs |-> cmd.c2.targs, keep |-> cmd.c2.keep, j |-> cmd.c2.j,
-                                     cwd |-> cmd.c2.cwd, rc |-> procs[Top2].rc, ran |-> PickRan(1, Top2)],
+                                     cwd |-> cmd.c2.cwd, rc |-> procs[Top2].rc, ran |-> PickRan(1, Top2),
+                                     out |-> procs[Top2].qout],
                              snap |-> Snapshot])
     /\ ran' = << >>
     /\ UNCHANGED <<fs, tmp, clock, w, runid, locks, ncmds, pool, gh>>
@@ -356,6 +360,15 @@ Query(c) ==
     /\ hist' = Append(hist, [a |-> "query", kind |-> c.kind, cwd |-> c.cwd, out |-> QueryOut(c.kind, runid + 1),
                              snap |-> Snapshot])
     /\ UNCHANGED <<fs, tmp, clock, w, locks, procs, cmd, ran, pool, gh>>
+
+\* a query started beside a build: its start-up transaction allocates a run id, then it reads one consistent snapshot of
+\* the database (a deferred transaction in WAL mode) and the files as they are at that moment
+QueryRun(p) ==
+    /\ Alive(p) /\ procs[p].kind = "query" /\ procs[p].pc = "init"
+    /\ runid' = runid + 1
+    /\ procs' = [procs EXCEPT ![p].pc = "done", ![p].rc = 0, ![p].rid = runid + 1,
+                              ![p].qout = QueryOut(procs[p].t, runid + 1)]
+    /\ UNCHANGED <<fs, tmp, clock, w, locks, cmd, hist, ran, ncmds, pool, gh>>
 
 (***************************************************************************)
 (* redo processes                                                          *)
@@ -879,7 +892,7 @@ ScriptStepA == \E p \in DOMAIN procs : ScriptStep(p)
 ScriptResumeA == \E p \in DOMAIN procs : ScriptResume(p)
 UnlockedStepA == \E p \in DOMAIN procs : UnlockedStep(p)
 OrphanReapA == \E p \in DOMAIN procs : OrphanReap(p)
-InitRunA    == \E p \in DOMAIN procs : InitRun(p)
+InitRunA    == \E p \in DOMAIN procs : InitRun(p) \/ QueryRun(p)
 UnlinkStaleA == \E p \in DOMAIN procs : UnlinkStale(p)
 
 ProcStep ==
